@@ -86,6 +86,12 @@ def _run_block(lo, hi, shrink_budget):
             program = make_program(world, master, i)
             res = execute(world, program, known)
             _agg_add(agg, i, program, res, keep_sample=(i == lo))
+            if os.environ.get("VERIF_DUMP_DIGESTS"):
+                # (debugging aid: one line per run, to find the run whose event log differs between two identical batches)
+                with open(os.environ["VERIF_DUMP_DIGESTS"] + f".{os.getpid()}", "a") as fh:
+                    fh.write(f"{i} {res.digest}\n")
+                    if str(i) == os.environ.get("VERIF_DUMP_LINES_INDEX"):
+                        fh.write("LINES " + " ;; ".join(res.ctx.lines) + "\n")
             if res.error is not None:
                 out["error"] = {"index": i, "trace": res.error, "program": program}
                 return out
